@@ -104,7 +104,7 @@ def streams(ctx):
 
 def run(ctx):
     return standard_run(
-        ctx, MODULE, THEOREMS, ["vm"], streams,
+        ctx, MODULE, THEOREMS, ["vm", "simstep"], streams,
         rule="(1) every instruction executed by generated sessions (half of them with an injected failure: unbound "
              "variable, wrong type, wrong arity, user error, bad syntax, call of a non-procedure) replayed through the "
              "Lean model of run_one: state before + heap facts consulted -> state after; (2) sessions where a form "
@@ -112,7 +112,14 @@ def run(ctx):
              "non-tail recursion, call/cc receivers; plus read errors) vs a twin VM running the benign variant: "
              "register dump after the failure vs the model's error epilogue, then a common probe suite (globals, "
              "expressions, a failing probe's stack-trace length, sp, stack capacity, output log); non-trivial = "
-             "calls/returns/errors; distinct by request")
+             "calls/returns/errors; distinct by request; (3) stream prepare-installs (ROUND 10): the complete "
+             "real VM state (registers, stack, every heap cell with payload, 2-bit map, free list, symbol table, global "
+             "environment) immediately BEFORE and AFTER Vm::prepare_eval of generated and hand-written top-level forms "
+             "(sessions in which earlier forms were evaluated; half of them on a free list scrambled by a forced "
+             "collection) is replayed by the executable checker installsB / garbageB of Vm/PrepareCheck.lean (proved sound "
+             "towards the relation Installs / InstallsGarbage of the theorems: installsB_sound) with the compiler MODEL's "
+             "code objects for the form, plus a by-name comparison of the loaded code with the model's; non-trivial = "
+             "a form that allocated")
 
 
 # ROUND 8: the Ext laws are theorems for a table of real builtins (lib/props/procinv_util.py, Lemmas/ListExtC07.lean)
@@ -120,3 +127,99 @@ import procinv_util as _pv8
 MODULE = _pv8.listext_module("C07")
 THEOREMS = THEOREMS + [t for t in _pv8.LISTEXT_LAWS + _pv8.LISTEXT["C07"] if t not in THEOREMS]
 META["note"] = META["note"] + _pv8.LISTEXT_NOTE
+
+
+# ROUND 10 (work package wp14-prepare): prepare_eval re-establishes the machine invariant (Lemmas/Prepare*.lean)
+THEOREMS = THEOREMS + [t for t in [
+    "Marwood.Lemmas.Good.instStep_hg",
+    "Marwood.Lemmas.Good.instStep_cinv",
+    "Marwood.Lemmas.Good.cellPF_congr",
+    "Marwood.Lemmas.Good.cput_hp_any",
+    "Marwood.Lemmas.Good.instStep_hp",
+    "Marwood.Lemmas.Good.instSteps_all",
+    "Marwood.Lemmas.Good.VmOkP.idleOk",
+    "Marwood.Lemmas.Good.IdleOk.installs",
+    "Marwood.Lemmas.Good.IdleOk.gc",
+    "Marwood.Lemmas.Good.loaded_entry_ty",
+    "Marwood.Lemmas.Good.prepare_vmOkP_idle",
+    "Marwood.Lemmas.Good.prepare_vmOkP",
+    "Marwood.Lemmas.Good.idleOk_onDone",
+    "Marwood.Lemmas.Good.idleOk_onError",
+    "Marwood.Lemmas.Good.runLoop_last",
+    "Marwood.Lemmas.Good.idleOk_runEval",
+    "Marwood.Lemmas.Good.histInstalls_ok",
+    "Marwood.Proofs.C07.failed_eval_equivalent_later_installs",
+    "Marwood.Proofs.C07.failed_eval_equivalent_later_installs_vmOkP",
+] if t not in THEOREMS]
+
+
+# ROUND 10, continued: the tie of `Installs` to the real prepare_eval (stream prepare-installs)
+MODULE = (MODULE if isinstance(MODULE, list) else [MODULE]) + ["Marwood.Lemmas.PrepareCheckSound", "Marwood.Lemmas.PrepareDemo", "Marwood.Vm.PrepareCheckFast"]
+THEOREMS = THEOREMS + [t for t in [
+    "Marwood.Lemmas.Good.loadedB_sound",
+    "Marwood.Lemmas.Good.codeOkB_sound",
+    "Marwood.Lemmas.Good.loadedQB_sound",
+    "Marwood.Lemmas.Good.replay_sound",
+    "Marwood.Lemmas.Good.stepsB_sound",
+    "Marwood.Lemmas.Good.installsB_sound",
+    "Marwood.Lemmas.Good.garbageB_sound",
+    "Marwood.Vm.Concrete.installsFast_or",
+    "Marwood.Vm.Concrete.garbageFast_or",
+    "Marwood.Lemmas.Good.Demo.demo_installs",
+    "Marwood.Lemmas.Good.Demo.demo_prepared_vmOkP",
+] if t not in THEOREMS]
+META["note"] = META["note"] + (
+    " ROUND 10 (prepare_eval re-establishes the invariant; Lemmas/Prepare*.lean): failed_eval_equivalent_later_closed "
+    "asked VmOk /\\ PInv of the state the failing evaluation starts in AND of the two states (s2, t2) the later "
+    "evaluation starts in, plus the law CompGood of the compiler inside prepare_eval. These are now consequences. "
+    "Installs e fuel s s' entry (Lemmas/PrepareDefs.lean) is the relation between the machine before and after the "
+    "compiler+loader of prepare_eval: registers and stack unchanged; the heap grows by allocator steps InstStep "
+    "(cput / putNew as the instruction model allocates: free-list head or heap growth, 2-bit map; never a write to an "
+    "existing cell) of lambda cells that are Enc-loadings of code objects of the compiler model's compileRunnable e "
+    "fuel, data cells of the quoted data (pairs, address-free atoms, vectors), newly interned symbols, new Undefined "
+    "global slots - every cell's references already allocated when it is put (children first), no value position "
+    "designating entry code; the entry cell holds a loading of entryLam. InstallsGarbage: what a REJECTED form leaves "
+    "behind before the collection of the Err arm (same steps, code objects constrained only by the clauses the "
+    "invariants state of every lambda cell). THEOREM prepare_vmOkP (closed, no sorry): VmOkP of a state with an empty "
+    "stack (or the idle invariant IdleOk = GoodI /\\ CInvG IsValue /\\ PInv /\\ sp = 0, which every evaluation "
+    "leaves behind: idleOk_runEval) + Installs + Small of the new heap => VmOkP (prepare s' entry): all clauses of "
+    "GoodI (instStep_hg via put_core/putNew_hg; roots), WF-stack (WFS.initial; the entry lambda is verified ENTRY code "
+    "by T04.6 entry_verifyLam: loaded_entry_ty), CInvG IsValue (compiled_lambda_clauses, cput_lambda_growsL), PInv "
+    "(cput_hp_any: allocating a code cell - possibly entry code - keeps 'no value leads to entry code' because every "
+    "address the predicate inspects is an allocated address of the old heap, cellPF_congr). "
+    "failed_eval_equivalent_later_installs: T07.4 with IdleOk of the machine BEFORE the failing job (or VmOkP of an "
+    "initial state, _vmOkP) and Installs for the three prepare_eval steps instead of the per-state invariants; "
+    "CompGood is gone, CompLaws (the compiler acts alike on Sim-related heaps) stays - it is what a statement "
+    "relating two heaps needs. histInstalls_ok: for whole histories (HistInstalls: accepted and rejected forms) every "
+    "job starts in a VmOkP state. Also prepare_npinv / history_never_panics_installs (Lemmas/PrepareNP.lean, "
+    "PrepareNoPanic.lean: the C06 history theorem without HistGood's VmOkP clause; not listed here, it depends on the "
+    "NoPanic files of another work package). TIE TO THE CODE: the relation is not proved of the Rust function; the "
+    "stream prepare-installs checks it on every generated prepare_eval with the executable checker installsB / "
+    "garbageB (Vm/PrepareCheck.lean: replays the allocations in allocator order on the before-heap, evaluating every "
+    "side condition of InstStep on the heap reached so far, then the new global slots, then compares everything up to "
+    "the representation of the two hash maps), PROVED SOUND towards Installs / InstallsGarbage (installsB_sound, "
+    "garbageB_sound), with the compiler MODEL's code objects for the form (LoadedLam decided by loadedB) and a by-name "
+    "comparison of the loaded top-level code with the model's (as the C04 compiled-code stream). Quick tier: 1326 "
+    "real prepare_eval calls (1118 accepted, 203 rejected of which 74 left garbage, 5 rejected with a collection: "
+    "registers only), 3712 new lambda cells, heap growth in 15, scrambled free list in 814, prepared in mid-evaluation "
+    "in 142; 0 disagreements over 20 seeds (~35000 calls); 14 hand-mutated requests all rejected. What the stream "
+    "cannot see: string contents (opaque tags in the concrete heap model) and the key->slot map of the global "
+    "environment (CHeap keeps keys and slots only); forms containing define-syntax are not sent (the compiler MODEL "
+    "answers unsupported). Non-vacuity: Demo.demo_installs (the form #t on the demo machine, through installsB_sound by "
+    "kernel evaluation) and demo_prepared_vmOkP.")
+
+_streams_r9 = streams
+
+def prep_nontrivial(req, impl):
+    # info token p:<mode>:<allocations>:…
+    try:
+        return int(req.split(" ", 2)[1].split(":")[2]) > 0
+    except Exception:
+        return False
+
+def streams(ctx):
+    _streams_r9(ctx)
+    n = 40 if ctx.quick() else 300
+    cases = gen_cases("simstep", ["prep", n], ctx.seed)
+    md, sd = correspond(ctx, "prepare-installs", cases, prep_nontrivial)
+    settle(ctx, md, sd)
